@@ -25,6 +25,9 @@ func checkC13(c *Ctx) {
 	c.headOnlyRelease()
 	c.growRules()
 	c.occupancyByCount()
+	// the private copies are sized with msg.Len(): header length thresholds and Len ordering
+	c.typeTables()
+	c.lenOrdering()
 	lockBalance(c, func(cl string) bool { return strings.HasPrefix(cl, "sessions.Ackqueue.") }, "ack-queue")
 	c.queueMethodsLocked()
 }
@@ -321,6 +324,7 @@ func (c *Ctx) growUnrollOrder(fn *ssa.Function) {
 		call            *ssa.Call
 		srcLow, srcHigh ssa.Value
 		dstLow          ssa.Value
+		whole           bool
 	}
 	var cps []cp
 	for _, b := range fn.Blocks {
@@ -335,6 +339,14 @@ func (c *Ctx) growUnrollOrder(fn *ssa.Function) {
 			}
 			x := cp{call: call}
 			dst, src := call.Common().Args[0], call.Common().Args[1]
+			if ld, ok := src.(*ssa.UnOp); ok {
+				// copy(new, ring): the old ring slot for slot
+				if p := ir.PathOf(ld); len(p.Fields) > 0 && p.Fields[len(p.Fields)-1] == "ring" {
+					x.whole = true
+					cps = append(cps, x)
+					continue
+				}
+			}
 			if sl, ok := src.(*ssa.Slice); ok {
 				p := ir.PathOf(sl.X)
 				if len(p.Fields) == 0 || p.Fields[len(p.Fields)-1] != "ring" {
@@ -408,6 +420,8 @@ func (c *Ctx) growUnrollOrder(fn *ssa.Function) {
 	var bad []string
 	for _, x := range cps {
 		switch {
+		case x.whole:
+			bad = append(bad, "the old ring is copied slot for slot at "+c.P.InstrPos(x.call)+" although head is reset to 0: when the ring had wrapped (head != 0) the newest entries land in front of the oldest")
 		case x.srcLow != nil && isFieldLoad(x.srcLow, "head"):
 			// the oldest segment: must land at offset 0
 			if !isZero(x.dstLow) {
